@@ -25,6 +25,8 @@ LITERALS = ['char *s = "a\\"b\\\\c\\n"; char c = \'\\\'\'; char d = \'"\'; int e
             '_Alignas(8) int a8; _Alignas(double) char ad; struct A { _Alignas(16) int m; }; void p(void) { _Pragma("omp x") a8 = 1; }',
             # empty child lists (as opposed to absent children): empty struct body, empty initializer, stacked labels
             'struct E {} e; union UE {} ue; struct F; int z[3] = {}; void k(int n) { switch (n) { case 1: case 2: break; case 3: default: ; } }',
+            # several declarators sharing one anonymous struct / union / enum specifier (the parser shares the node)
+            'struct { int a; } s1, *s2; enum { EA, EB } e1, e2; void f(void) { union { int u; } u1, u2[2]; } struct { int q; } *g(void), h1;',
             '']
 
 
